@@ -521,7 +521,7 @@ pub struct Policy {
     pub wild: bool,
 }
 
-const NAMES: [&str; 8] = ["a", "libc6", "python3-foo", "g++", "x.y~1", "0ad", "lib-a+b", "Z"];
+const NAMES: [&str; 10] = ["a", "libc6", "python3-foo", "g++", "x.y~1", "0ad", "lib-a+b", "Z", "42", "7"];
 const ARCHS: [&str; 6] = ["amd64", "i386", "any", "linux-any", "hurd-i386", "all"];
 const BODIES: [&str; 9] = ["1", "2.3-4", "2.0~rc1+b2", "0", "1-2-3", "-1", "1-", "a-b.c", "1.2~~"];
 const EPOCHS: [&str; 5] = ["1", "0", "2", "01", "4294967295"];
